@@ -81,6 +81,8 @@ def build(S):
         # corners pinned to an X-point are the only grid points allowed off the integral curve of their radial
         # line: the pin lists name the right radial edge in every topology (T7)
         S.under_contract("hypnotoad.cases.tokamak:TokamakEquilibrium.describeDoubleNull")
+        S.under_contract("hypnotoad.cases.torpex:TORPEXMagneticField.makeRegions")
+        S.contract("X-point pins[isolated X-point, TORPEX]", "hypnotoad.cases.torpex:TORPEXMagneticField.makeRegions", C08.run_torpex_setup_region, shape="two recorder legs (one reversed)")
         for topo in tk.TOPOLOGIES:
             S.contract("X-point pins[%s]" % topo, "hypnotoad.cases.tokamak:TokamakEquilibrium.describeDoubleNull", C08.make_pins_run(topo), expected_exceptions=(ValueError,), raises_ok=lambda p: True, shape="sizes symbolic")
 
